@@ -147,7 +147,7 @@ pub struct TypeBuilder<F: Form = MetaForm, S = state::PathNotAssigned> {
     marker: PhantomData<fn() -> (F, S)>,
 }
 
-impl<F: Form, S> Default for TypeBuilder<F, S> {
+impl<F: Form> Default for TypeBuilder<F, state::PathNotAssigned> {
     fn default() -> Self {
         TypeBuilder {
             path: Default::default(),
@@ -387,7 +387,9 @@ pub struct FieldBuilder<
     marker: PhantomData<fn() -> (N, T)>,
 }
 
-impl<F: Form, N, T> Default for FieldBuilder<F, N, T> {
+impl<F: Form> Default
+    for FieldBuilder<F, field_state::NameNotAssigned, field_state::TypeNotAssigned>
+{
     fn default() -> Self {
         FieldBuilder {
             name: Default::default(),
